@@ -73,18 +73,23 @@ Qed.
 
 (* ---------------- state invariants ---------------- *)
 Definition done (v : chain) : imp_state := {| is_evaluating := false; is_value := Some v |}.
+(* the entry of an import that could not be loaded (remembered, never retried) *)
+Definition failed_imp : imp_state := {| is_evaluating := false; is_value := None |}.
 
 Definition I1 (s : st) : Prop := forall id v, In (id, v) (memo s) -> alookup (fst id) (imps s) <> None.
 Definition I2 (s : st) : Prop :=
-  forall n i, alookup n (imps s) = Some i -> is_evaluating i = false -> exists d, env_of n = Some d /\ is_value i = Some (dn n d).
+  forall n i, alookup n (imps s) = Some i -> is_evaluating i = false ->
+    (exists d, env_of n = Some d /\ is_value i = Some (dn n d)) \/ (env_of n = None /\ is_value i = None).
 Definition I3 (s : st) (r : nat) : Prop :=
   forall n i, alookup n (imps s) = Some i -> is_evaluating i = true -> r <= rank n.
 
-(* s' extends s: table entries are only added, for fresh names, with their denotation; memo entries are only added,
-   for names fresh in s *)
+(* s' extends s: table entries are only added, for fresh names, with their denotation (or the failure mark for a name
+   the loader does not serve); memo entries are only added, for names fresh in s *)
+Definition new_entry (m : string) (s' : st) : Prop :=
+  (exists d, env_of m = Some d /\ alookup m (imps s') = Some (done (dn m d)))
+  \/ (env_of m = None /\ alookup m (imps s') = Some failed_imp).
 Definition ext (s s' : st) : Prop :=
-  (forall m, alookup m (imps s') = alookup m (imps s)
-             \/ (alookup m (imps s) = None /\ exists d, env_of m = Some d /\ alookup m (imps s') = Some (done (dn m d))))
+  (forall m, alookup m (imps s') = alookup m (imps s) \/ (alookup m (imps s) = None /\ new_entry m s'))
   /\ (forall id v, In (id, v) (memo s') -> In (id, v) (memo s) \/ alookup (fst id) (imps s) = None).
 
 Lemma ext_refl s : ext s s.
@@ -93,9 +98,10 @@ Proof. split; [intros m; now left|intros id v H; now left]. Qed.
 Lemma ext_trans s s' s'' : ext s s' -> ext s' s'' -> ext s s''.
 Proof.
   intros [A1 A2] [B1 B2]. split.
-  - intros m. destruct (B1 m) as [E|(E & d & Hd & E')].
-    + rewrite E. apply A1.
-    + right. destruct (A1 m) as [E2|(E2 & d2 & _ & E2')]; [|congruence]. split; [congruence|]. exists d. split; assumption.
+  - intros m. destruct (B1 m) as [E|(E & N)].
+    + rewrite E. destruct (A1 m) as [E2|(E2 & N2)]; [now left|right]. split; [exact E2|].
+      destruct N2 as [(d & Hd & E')|(Hd & E')]; [left; exists d|right]; (split; [exact Hd|congruence]).
+    + right. destruct (A1 m) as [E2|(E2 & [(d2 & _ & E2')|(_ & E2')])]; try congruence. split; [congruence|exact N].
   - intros id v H. destruct (B2 id v H) as [H'|H'].
     + apply A2, H'.
     + right. destruct (A1 (fst id)) as [E|(E & _)]; congruence.
@@ -103,15 +109,17 @@ Qed.
 
 Lemma ext_I2 s s' : ext s s' -> I2 s -> I2 s'.
 Proof.
-  intros [A1 _] H n i Hn Hi. destruct (A1 n) as [E|(E & d & Hd & E')].
+  intros [A1 _] H n i Hn Hi. destruct (A1 n) as [E|(E & [(d & Hd & E')|(Hd & E')])].
   - apply (H n i); congruence.
-  - rewrite E' in Hn. injection Hn as <-. exists d. split; [exact Hd|reflexivity].
+  - rewrite E' in Hn. injection Hn as <-. left. exists d. split; [exact Hd|reflexivity].
+  - rewrite E' in Hn. injection Hn as <-. right. split; [exact Hd|reflexivity].
 Qed.
 
 Lemma ext_I3 s s' r : ext s s' -> I3 s r -> I3 s' r.
 Proof.
-  intros [A1 _] H n i Hn Hi. destruct (A1 n) as [E|(E & d & Hd & E')].
+  intros [A1 _] H n i Hn Hi. destruct (A1 n) as [E|(E & [(d & Hd & E')|(Hd & E')])].
   - apply (H n i); congruence.
+  - rewrite E' in Hn. injection Hn as <-. discriminate.
   - rewrite E' in Hn. injection Hn as <-. discriminate.
 Qed.
 
@@ -132,8 +140,7 @@ Definition pmy (is : list (string * bool)) (my : list (string * chain)) : list (
 
 Definition env_post (name : string) (s s' : st) : Prop :=
   (forall m, m <> name ->
-     alookup m (imps s') = alookup m (imps s)
-     \/ (alookup m (imps s) = None /\ exists d, env_of m = Some d /\ alookup m (imps s') = Some (done (dn m d))))
+     alookup m (imps s') = alookup m (imps s) \/ (alookup m (imps s) = None /\ new_entry m s'))
   /\ alookup name (imps s') = Some {| is_evaluating := false; is_value := None |}
   /\ (forall id v, In (id, v) (memo s') -> In (id, v) (memo s) \/ alookup (fst id) (imps s) = None)
   /\ I1 s'.
@@ -158,18 +165,32 @@ Proof.
     destruct (alookup n (imps s)) as [i|] eqn:En.
     + destruct (is_evaluating i) eqn:Ev.
       * exfalso. pose proof (H3 n i En Ev). lia.
-      * destruct (H2 n i En Ev) as (d' & Hd' & Hv). rewrite Hd', Hv. cbv zeta. apply IH; assumption.
+      * destruct (H2 n i En Ev) as [(d' & Hd' & Hv)|(Hd' & Hv)]; rewrite Hd', Hv; apply IH; assumption.
     + cbv zeta. unfold load_of. rewrite (call_nofault _ _ (lw_fault LW)).
       set (s1 := snd (emit (EvLoad n) (snd (call W s)))).
       assert (T1 : same_tables s s1) by (split; reflexivity).
-      assert (Hskip : exists s', imp_loop W (eval_env W f) root' rest base my (snd (err s1))
+      assert (Hskip : env_of n = None ->
+                      exists s', imp_loop W (eval_env W f) root' rest base my (set_imps n failed_imp (snd (err s1)))
                                  = ((fold_left (base_step dn) rest base, fold_left (my_step dn) rest my), s')
                                  /\ ext s s' /\ I1 s').
-      { assert (T2 : same_tables s (snd (err s1))) by (split; reflexivity).
-        destruct (IH base my (snd (err s1)) Hr' (same_tables_I1 _ _ T2 H1)
-                     (ext_I2 _ _ (same_tables_ext _ _ T2) H2) (ext_I3 _ _ _ (same_tables_ext _ _ T2) H3)) as (s' & E & X & Y).
-        exists s'. split; [exact E|]. split; [|exact Y]. exact (ext_trans _ _ _ (same_tables_ext _ _ T2) X). }
-      unfold env_of at 1 2. destruct (alookup n (w_envs W)) as [[| |d']|] eqn:El; try exact Hskip.
+      { intros Hnone. set (sf := set_imps n failed_imp (snd (err s1))).
+        assert (X2 : ext s sf).
+        { split; [|intros id v Hin; left; exact Hin]. intros m. destruct (String.eqb m n) eqn:Emn.
+          - apply String.eqb_eq in Emn. subst m. right. split; [exact En|]. right. split; [exact Hnone|apply set_imps_lookup].
+          - left. unfold sf, set_imps, imps_set. cbn [snd imps alookup]. now rewrite Emn. }
+        assert (Y2 : I1 sf).
+        { intros id v Hin. unfold sf, set_imps, imps_set. cbn [snd imps alookup].
+          destruct (String.eqb (fst id) n); [discriminate|]. exact (H1 id v Hin). }
+        destruct (IH base my sf Hr' Y2 (ext_I2 _ _ X2 H2) (ext_I3 _ _ _ X2 H3)) as (s' & E & X & Y).
+        exists s'. split; [exact E|]. split; [|exact Y]. exact (ext_trans _ _ _ X2 X). }
+      assert (Hskip' : match alookup n (w_envs W) with Some (LoadOk _) => False | _ => True end ->
+                      exists s', imp_loop W (eval_env W f) root' rest base my (set_imps n failed_imp (snd (err s1)))
+                                 = ((fold_left (base_step dn) rest base, fold_left (my_step dn) rest my), s')
+                                 /\ ext s s' /\ I1 s').
+      { intros Hx. apply Hskip. unfold env_of. destruct (alookup n (w_envs W)) as [[| |dx]|]; try reflexivity. destruct Hx. }
+      clear Hskip.
+      unfold env_of at 1 2. destruct (alookup n (w_envs W)) as [[| |d']|] eqn:El; try exact (Hskip' I).
+      clear Hskip'.
       assert (Hd' : env_of n = Some d') by (unfold env_of; now rewrite El).
       assert (J3 : I3 s1 (S (rank n))).
       { intros m i Hm Hi. pose proof (H3 m i Hm Hi). lia. }
@@ -180,12 +201,13 @@ Proof.
       assert (X3 : ext s s3).
       { split.
         - intros m. destruct (String.eqb m n) eqn:Emn.
-          + apply String.eqb_eq in Emn. subst m. right. split; [exact En|]. exists d'. split; [exact Hd'|].
+          + apply String.eqb_eq in Emn. subst m. right. split; [exact En|]. left. exists d'. split; [exact Hd'|].
             apply set_imps_lookup.
           + assert (Hne : m <> n) by now apply String.eqb_neq.
             assert (L3 : alookup m (imps s3) = alookup m (imps s2)).
             { unfold s3, set_imps, imps_set. cbn [snd imps alookup]. now rewrite Emn. }
-            rewrite L3. exact (Q1 m Hne).
+            rewrite L3. destruct (Q1 m Hne) as [Q|(Q & N)]; [left; exact Q|right; split; [exact Q|]].
+            unfold new_entry in *. rewrite L3. exact N.
         - intros id v Hin. exact (Q3 id v Hin). }
       assert (Y3 : I1 s3).
       { intros id v Hin. unfold s3, set_imps, imps_set. cbn [snd imps alookup].
@@ -199,7 +221,7 @@ Theorem env_eval_lit : forall f, env_spec f.
 Proof.
   induction f as [|f IHf]; intros root name d s Hf Hd Hn H1 H2 H3; [unfold need in Hf; lia|].
   rewrite eval_env_S. cbv zeta.
-  set (root' := if String.eqb root "" then name else root).
+  set (root' := if String.eqb root "" || String.eqb root "<yaml>" then name else root).
   unfold bind at 1. cbn [imps_set fst snd].
   set (s0 := {| memo := memo s; imps := (name, {| is_evaluating := true; is_value := None |}) :: imps s;
                 log := log s; nerr := nerr s; calls := calls s; oof := oof s |}).
@@ -233,9 +255,10 @@ Proof.
     + f_equal. unfold dn at 1. symmetry. apply (den_dn _ name); [exact Hd|lia].
     + unfold env_post. rewrite imps_with_memo, memo_with_memo. cbn [sb imps memo]. repeat split.
       * intros m Hm. cbn [alookup]. apply String.eqb_neq in Hm. rewrite Hm. apply String.eqb_neq in Hm.
-        destruct (XL1 m) as [E|(E & d' & Hd' & E')].
+        destruct (XL1 m) as [E|(E & N)].
         -- left. rewrite E. now apply L0.
-        -- right. rewrite (L0 m Hm) in E. split; [exact E|]. exists d'. split; assumption.
+        -- right. rewrite (L0 m Hm) in E. split; [exact E|]. unfold new_entry in *. rewrite imps_with_memo. cbn [sb imps alookup].
+           apply String.eqb_neq in Hm. rewrite Hm. exact N.
       * cbn [alookup]. now rewrite String.eqb_refl.
       * intros id v Hin. apply in_app_or in Hin. destruct Hin as [Hin|Hin].
         -- right. destruct (Ue id v Hin) as [Hk _]. cbn [fst] in Hk. now rewrite Hk.
@@ -282,15 +305,30 @@ Qed.
 Theorem imported_same_everywhere_lit (fuel : nat) (root R : string) (dR : envdef) (X : string) (i : imp_state) :
   need R <= fuel -> env_of R = Some dR -> X <> R ->
   alookup X (imps (snd (eval_env W fuel root R dR st0))) = Some i ->
-  exists dX, env_of X = Some dX /\ i = done (dn X dX) /\
-             forall fuel' root', need X <= fuel' -> is_value i = Some (fst (eval_env W fuel' root' X dX st0)).
+  (exists dX, env_of X = Some dX /\ i = done (dn X dX) /\
+              forall fuel' root', need X <= fuel' -> is_value i = Some (fst (eval_env W fuel' root' X dX st0)))
+  \/ (env_of X = None /\ i = failed_imp).      (* an import the loader does not serve: the remembered failure *)
 Proof.
   intros Hf Hd Hne Hi. destruct (pre_st0 R) as (P0 & P1 & P2 & P3).
   destruct (env_eval_lit fuel root R dR st0 Hf Hd P0 P1 P2 P3) as (s' & E & Q1 & _). rewrite E in Hi. cbn [snd] in Hi.
-  destruct (Q1 X Hne) as [Q|(_ & dX & HdX & Q)].
+  destruct (Q1 X Hne) as [Q|(_ & [(dX & HdX & Q)|(HdX & Q)])].
   - rewrite Q in Hi. discriminate.
-  - rewrite Q in Hi. injection Hi as <-. exists dX. split; [exact HdX|]. split; [reflexivity|].
+  - rewrite Q in Hi. injection Hi as <-. left. exists dX. split; [exact HdX|]. split; [reflexivity|].
     intros fuel' root' Hf'. cbn [done is_value]. now rewrite (eval_env_den fuel' root' X dX Hf' HdX).
+  - rewrite Q in Hi. injection Hi as <-. right. split; [exact HdX|reflexivity].
+Qed.
+
+(* ... so for a name the loader serves, the entry is the standalone value *)
+Corollary imported_same_everywhere_lit_served (fuel : nat) (root R : string) (dR : envdef) (X : string) (dX : envdef) (i : imp_state) :
+  need R <= fuel -> env_of R = Some dR -> X <> R -> env_of X = Some dX ->
+  alookup X (imps (snd (eval_env W fuel root R dR st0))) = Some i ->
+  i = done (dn X dX) /\
+  forall fuel' root', need X <= fuel' -> is_value i = Some (fst (eval_env W fuel' root' X dX st0)).
+Proof.
+  intros Hf Hd Hne HX Hi.
+  destruct (imported_same_everywhere_lit fuel root R dR X i Hf Hd Hne Hi) as [(dX' & HdX' & Hi' & H)|(HdX' & _)].
+  - rewrite HX in HdX'. injection HdX' as <-. split; assumption.
+  - rewrite HX in HdX'. discriminate.
 Qed.
 
 (* what an importer sees: the loop hands every loadable import's denotation to imports.<n> and the merged ones to the base,
